@@ -54,7 +54,7 @@ fn two_different(c: &mut Choices) -> ((String, String), (String, String)) {
     }
 }
 
-pub const N_SNIPPETS: usize = 43;
+pub const N_SNIPPETS: usize = 44;
 
 pub fn snippet(k: usize, c: &mut Choices) -> Snippet {
     let mut decls = String::new();
@@ -553,6 +553,18 @@ pub fn snippet(k: usize, c: &mut Choices) -> Snippet {
             };
             decls.push_str(d);
             ("name-after-a-type-parameter", "let zz = 1;\n".to_string())
+        }
+        43 => {
+            // the concatenation of two lists is a list of their element type, nothing else
+            let s = match c.below(6) {
+                0 => "let zza = [1, 2];\nlet zzb = [3];\nlet zz: List[String] = zza + zzb;\n",
+                1 => "let zza = [1];\nlet zz = zza + zza;\nzz.push(\"s\");\n",
+                2 => "let zz: List[u8] = [\"a\"] + [\"b\"];\n",
+                3 => "let zza: List[bool] = [true];\nlet zz: List[i64] = zza.concat(zza);\n",
+                4 => "let zza = [1.5];\nlet zz = zza + zza;\nlet zzs: String = match zz.get(0) { Some(v) => v, None => \"n\" };\n",
+                _ => "let zza = [\"x\"];\nlet zz = (zza + zza) == [1];\n",
+            };
+            ("concatenation-of-lists-at-another-element-type", s.to_string())
         }
         _ => {
             let s = match c.below(3) {
